@@ -25,6 +25,8 @@ def check(run):
     # the query views (make_label, string_summary) walk parent links: every attached child must point back at its owner (C03's pairing rule)
     from . import common as _common
     _common.delegate(run, "C03", lambda rule, key: rule == "R3-pairing", floor=14)
+    # --replace prints squash_replace(data, tree.children): it must substitute exactly what flatten substitutes (C19's tiling cases for it)
+    _common.delegate(run, "C19", lambda rule, key: rule == "R-tiling" and "squash_replace" in key, floor=4)
     nm = prog.mod("node")
     jm = prog.mod("json_conversion")
     w = lambda n, m: f"{m.rel}:{getattr(n, 'lineno', 0)}"   # noqa: E731
